@@ -26,7 +26,66 @@ fn gen_stream(r: &mut Rng, valid_only: bool, long: bool) -> Vec<u8> {
         v.push(b'\n');
         v.extend_from_slice(b"tail");
     }
+    if long && r.chance(1, 40) {
+        // a line far beyond any buffer size: exactly 64 KiB, or more
+        let k = *r.pick(&[65536usize, 65537, 70000, 131072]);
+        v.extend(std::iter::repeat(b'y').take(k));
+        v.push(b'\n');
+        v.extend_from_slice(b"end");
+    }
     v
+}
+
+/// remove CSI sequences (ESC [ parameters intermediates final): the reference for --ansi
+fn strip_csi(s: &str) -> String {
+    let b = s.as_bytes();
+    let mut out = Vec::new();
+    let mut i = 0;
+    while i < b.len() {
+        if b[i] == 0x1b && i + 1 < b.len() && b[i + 1] == b'[' {
+            let mut j = i + 2;
+            while j < b.len() && (0x30..=0x3f).contains(&b[j]) { j += 1; }
+            while j < b.len() && (0x20..=0x2f).contains(&b[j]) { j += 1; }
+            if j < b.len() && (0x40..=0x7e).contains(&b[j]) { i = j + 1; continue; }
+        }
+        out.push(b[i]);
+        i += 1;
+    }
+    String::from_utf8_lossy(&out).to_string()
+}
+
+/// --ansi: what is printed is the line with its ANSI sequences removed, with or without --with-nth
+fn ansi_case(r: &mut Rng) -> Option<(String, String)> {
+    const PIECES: [&str; 14] = ["ab", "c d", "x,y", ",", "中", "\x1b[31m", "\x1b[0m", "\x1b[1;32m", "\x1b[K", "\x1b[2K", "\x1b[10;5H", "\x1b[m", "z", " "];
+    let n_lines = 1 + r.below(4);
+    let mut lines: Vec<String> = Vec::new();
+    for _ in 0..n_lines {
+        // starts with a colour that applies to a visible character, so that the item has attributes
+        let mut l = String::from("\x1b[31mR");
+        for _ in 0..r.below(8) { l.push_str(*r.pick(&PIECES)); }
+        lines.push(l);
+    }
+    let with_nth = if r.chance(1, 2) { Some("1..") } else { None };
+    let joined = lines.join("\n") + "\n";
+    let input = format!("--ansi with_nth={:?} lines={:?}", with_nth, lines);
+    let j2 = joined.clone();
+    let res = guarded(move || {
+        let mut opt = SkimItemReaderOption::default().ansi(true);
+        if let Some(w) = with_nth { opt = opt.delimiter(",").with_nth(w); }
+        let reader = SkimItemReader::new(opt.build());
+        let rx = reader.of_bufread(std::io::Cursor::new(j2.into_bytes()));
+        let items: Vec<_> = rx.iter().collect();
+        (items.iter().map(|it| it.text().to_string()).collect::<Vec<_>>(), items.iter().map(|it| it.output().to_string()).collect::<Vec<_>>())
+    });
+    match res {
+        Err(e) => Some((format!("panic: {}", e), input)),
+        Ok((texts, outputs)) => {
+            let want: Vec<String> = lines.iter().map(|l| strip_csi(l)).collect();
+            if outputs != want { return Some((format!("printed lines {:?}, the input lines without their ANSI sequences are {:?}", outputs, want), input)); }
+            if texts != want { return Some((format!("item texts {:?}, the input lines without their ANSI sequences are {:?}", texts, want), input)); }
+            None
+        }
+    }
 }
 
 /// documented semantics: lines terminated by the terminator (LF mode: LF or CRLF), last possibly unterminated
@@ -82,12 +141,18 @@ fn main() {
     let ids: Vec<u64> = match a.only { Some(i) => vec![i], None => (0..a.n).collect() };
     for id in ids {
         let mut r = Rng::for_case(a.seed, id);
+        if id % 7 == 3 {
+            dist.add("ansi-output-case");
+            if let Some((what, input)) = ansi_case(&mut r) { fails.push(OracleFailure { case: id, what, known: None, input }); }
+            continue;
+        }
         let read0 = r.chance(1, 3);
         let complex = r.chance(1, 2);
         let valid_only = r.chance(2, 3);
         let bs = gen_stream(&mut r, valid_only, true);
         let term = if read0 { 0u8 } else { b'\n' };
-        let input = format!("read0={} path={} bytes={:?}", read0, if complex { "DefaultSkimItem" } else { "simple" }, String::from_utf8_lossy(&bs));
+        let shown = if bs.len() > 20000 { format!("<{} bytes, a line of 64 KiB or more>", bs.len()) } else { String::from_utf8_lossy(&bs).to_string() };
+        let input = format!("read0={} path={} bytes={:?}", read0, if complex { "DefaultSkimItem" } else { "simple" }, shown);
         let inwin = in_window(&bs, term);
         let cap = *r.pick(&[1usize, 2, 3, 5, 8, 64, 8192]);
         let with_nth: Option<&str> = if complex && r.chance(1, 2) { Some(*r.pick(&["2,1", "1..", "2..", "1", "-1,1", "3,2,1", ".."])) } else { None };
@@ -147,7 +212,8 @@ fn main() {
                         }
                     }
                 }
-                if std::str::from_utf8(&bs).is_ok() {
+                if bs.len() > 20000 { dist.add("line>=64KiB (oracle only)"); }
+                if std::str::from_utf8(&bs).is_ok() && bs.len() <= 20000 {
                     w.push(id, format!("{{| c_term := {}; c_bytes := {}; i_items := {} |}}", coq::n(term as u64), coq::bytes(&bs), coq::list(items.iter().map(|s| coq::bytes(s.as_bytes())))));
                 }
             }
